@@ -573,16 +573,16 @@ Proof.
   unfold insert_into. intros [E|(n0 & rest & E & G)]; rewrite E; [reflexivity|]. rewrite G. reflexivity.
 Qed.
 
-Lemma insert_into_by_name ttfs tsc tstore t n0 rest c0 :
-  NoDup (epoch_name :: map fst tsc) ->
-  (forall n, In n (epoch_name :: map fst tsc) -> In n (t_names t) /\ exists c, t_get n t = Some c) ->
+Lemma insert_into_by_name ttfs tsc tstore t tn n0 rest c0 :
+  List.length tn = S (List.length tsc) ->
+  (forall n, In n (epoch_name :: map fst tsc) -> In n tn) ->
+  (forall n, In n tn -> In n (t_names t) /\ exists c, t_get n t = Some c) ->
   t_names t = n0 :: rest -> t_get n0 t = Some c0 -> c0 <> [] ->
   forallb (fun c => match c with VI _ => true | _ => false end) (view_col (t_view t) epoch_name) = true ->
-  insert_into ttfs tsc tstore (epoch_name :: map fst tsc) t = Ok (spec_insert ttfs tsc tstore (t_view t)).
+  insert_into ttfs tsc tstore tn t = Ok (spec_insert ttfs tsc tstore (t_view t)).
 Proof.
-  intros Hnd Hpres En0 Gn0 Hc0 HVI. unfold insert_into. rewrite En0, Gn0.
+  intros Hlen Hall Hpres En0 Gn0 Hc0 HVI. unfold insert_into. rewrite En0, Gn0.
   replace (List.length c0 =? 0)%nat with false by (symmetry; apply Nat.eqb_neq; destruct c0; [contradiction | simpl; lia]).
-  set (tn := epoch_name :: map fst tsc) in *.
   assert (Hmem : forallb (fun n => existsb (String.eqb n) (n0 :: rest)) tn = true).
   { apply forallb_forall. intros n Hn. apply existsb_eqb_in. rewrite <- En0. apply Hpres. exact Hn. }
   rewrite Hmem. cbn [negb].
@@ -592,20 +592,19 @@ Proof.
   { unfold t_project. cbn [t_names]. clear -Hex. induction tn as [|k tn IH]; simpl; [reflexivity|].
     rewrite (Hex k (or_introl eq_refl)). f_equal. apply IH. intros x Hx. apply Hex. right. exact Hx. }
   rewrite Hnames.
-  replace ((List.length tn =? S (List.length tsc))%nat) with true
-    by (symmetry; apply Nat.eqb_eq; unfold tn; simpl; rewrite map_length; reflexivity).
-  replace (forallb (fun n => existsb (String.eqb n) tn) tn) with true
-    by (symmetry; apply forallb_forall; intros n Hn; apply existsb_eqb_in; exact Hn).
-  cbn [andb negb]. unfold tn at 1. rewrite String.eqb_refl. cbn [negb].
+  replace ((List.length tn =? S (List.length tsc))%nat) with true by (symmetry; apply Nat.eqb_eq; exact Hlen).
+  replace (forallb (fun n => existsb (String.eqb n) tn) (epoch_name :: map fst tsc)) with true
+    by (symmetry; apply forallb_forall; intros n Hn; apply existsb_eqb_in; apply Hall; exact Hn).
+  cbn [andb negb].
   assert (Hg : forall n, In n tn -> match t_get n (t_project tn t) with Some c => c | None => [] end = view_col (t_view t) n).
   { intros n Hn. rewrite (project_get tn t n Hex).
     replace (existsb (String.eqb n) tn) with true by (symmetry; apply existsb_eqb_in; exact Hn).
     symmetry. apply view_col_get. apply Hpres. exact Hn. }
-  rewrite (Hg epoch_name) by (left; reflexivity). rewrite HVI. cbn [negb].
+  rewrite (Hg epoch_name) by (apply Hall; left; reflexivity). rewrite HVI. cbn [negb].
   unfold spec_insert, write_rows. f_equal.
   replace (map (fun n => match t_get n (t_project tn t) with Some c => c | None => [] end) (map fst tsc))
     with (map (view_col (t_view t)) (map fst tsc)); [reflexivity|].
-  apply map_ext_in. intros n Hn. symmetry. apply Hg. right. exact Hn.
+  apply map_ext_in. intros n Hn. symmetry. apply Hg. apply Hall. right. exact Hn.
 Qed.
 
 (** the rows written, as rows: the i-th selected row restricted to the target's columns *)
@@ -705,12 +704,18 @@ Theorem insert_spec tfs sc rows ps s lim ttfs tsc tstore icols t :
 Proof.
   intros GQ GI EM. destruct (select_spec tfs sc rows ps s lim GQ) as (t' & EM' & Hne & Hemp).
   rewrite EM in EM'. inversion EM'; subst t'. clear EM'.
-  unfold guard_ins in GI. rewrite !andb_true_iff, !negb_true_iff in GI.
-  destruct GI as ((((((Htf & Hnd) & Hrows) & Hsorted) & Hreord) & Htypes) & Hep).
-  assert (Etn : (match icols with Some l => l | None => epoch_name :: map fst tsc end) = epoch_name :: map fst tsc).
-  { destruct icols as [l|]; [|reflexivity]. unfold insert_list_reordered in Hreord. apply negb_false_iff in Hreord.
-    apply strs_eqb_eq. exact Hreord. }
-  rewrite Etn. rewrite spec_q_view_of in *.
+  unfold guard_ins in GI. rewrite !andb_true_iff in GI.
+  destruct GI as ((((((Htf & Hnd) & Hrows) & Hsorted) & Hlist) & Htypes) & Hep).
+  set (tn := match icols with Some l => l | None => epoch_name :: map fst tsc end).
+  assert (Htn : List.length tn = S (List.length tsc)
+                /\ (forall n, In n (epoch_name :: map fst tsc) -> In n tn)
+                /\ (forall n, In n tn -> In n (epoch_name :: map fst tsc))).
+  { unfold tn, insert_list_ok in *. destruct icols as [l|].
+    - rewrite !andb_true_iff in Hlist. destruct Hlist as [[H1 H2] H3]. apply Nat.eqb_eq in H1.
+      rewrite forallb_forall in H2, H3. repeat split; [exact H1 | |]; intros n Hn; apply existsb_eqb_in; auto.
+    - repeat split; [simpl; rewrite map_length; reflexivity | |]; auto. }
+  destruct Htn as (Hlen & Hall & Hsub).
+  rewrite spec_q_view_of in *.
   unfold guard_q in GQ. rewrite !andb_true_iff in GQ. destruct GQ as (((((_ & _) & Hwf) & _) & _) & _).
   destruct (spec_rows sc rows ps lim) as [|r0 R'] eqn:ER.
   - (* nothing selected: nothing written *)
@@ -732,9 +737,8 @@ Proof.
       cbn [map] in HV. inversion HV; subst. exists rest. split; reflexivity. }
     destruct Hfirst as (rest & En0 & Gn0).
     rewrite <- HV.
-    apply (insert_into_by_name ttfs tsc tstore t k0 rest (col_of sc (r0 :: R') p0)); try assumption.
-    + apply nodup_names_spec. exact Hnd.
-    + intros n Hn. assert (Hin : In n (t_names t)).
+    apply (insert_into_by_name ttfs tsc tstore t tn k0 rest (col_of sc (r0 :: R') p0)); try assumption.
+    + intros n Hn0. pose proof (Hsub n Hn0) as Hn. assert (Hin : In n (t_names t)).
       { rewrite Hnames. destruct Hn as [<-|Hn].
         - destruct (sel_type sc s epoch_name) as [ty|] eqn:ET; [|discriminate Hep]. eapply sel_type_in. exact ET.
         - rewrite forallb_forall in Htypes. apply in_map_iff in Hn. destruct Hn as ([k ty] & <- & Hk).
